@@ -115,7 +115,9 @@ struct DelRun {
 fn run_delete(a: &Arch, d: &[u32], dry: bool, mode: Mode) -> DelRun {
     let arch = a.world.sc.fresh("del");
     fmt06::copy_dir(&a.world.arch, &arch);
-    let ic = Icept::with_budget(&arch, mode, 0, 200_000);
+    // room for walks down the band numbers (linear in the band id) on top of the fixed budget
+    let max_id = fmt06::read_archive(&arch, false).bands.keys().max().copied().unwrap_or(0) as usize;
+    let ic = Icept::with_budget(&arch, mode, 0, 200_000 + 30 * (max_id + 2));
     let out = cs::delete(ic.transport(2), &arch, d, dry, false);
     let log = ic.log();
     let at = log.iter().find(|e| e.injected).cloned();
